@@ -5,6 +5,7 @@
 # conditional terms, intervals) lives in rules/c19.py and is shared.
 
 import ast
+import copy
 import itertools
 import json
 import os
@@ -4568,6 +4569,7 @@ def _takeover_function(L, tu, file, fd, rec, flat, live, pend, flag, pflag, h0, 
 
 L1CTL_N = (1, 2, 64)                    # allocation lengths of the witness messages
 L1CTL_HSN, L1CTL_MAIO = 21, 42
+L1CTL_ARFCN_PCS = 0x8000 | 600          # the same numbers in the PCS 1900 band (ARFCN_PCS, osmocom/gsm/gsm_utils.h): other channels
 L1CTL_ARFCN0 = 600                      # 0x0258 .. 0x0297: both octets differ for each of the 64 entries
 
 
@@ -4725,7 +4727,6 @@ def _l1ctl_handler(L, tu, file, fd, rec, flat, groups, flag):
     fname = fd.get("name")
     line = tu.line(fd)
     probe, message = _l1ctl_witness(tu, fd, rec, flag)
-    arf = lambda i: L1CTL_ARFCN0 + i
     for (what, gflag, gdesc, gh0) in groups:
         dsub = probe.flat_fields(flat[gdesc][1][1])
         if not {"hsn", "maio", "n", "ma"} <= set(dsub) or dsub["ma"][1][0] != "arr":
@@ -4735,8 +4736,11 @@ def _l1ctl_handler(L, tu, file, fd, rec, flat, groups, flag):
         if len(h0i) != 1:
             raise AnalysisError("`%s` has %d integer members; unclassifiable" % (gh0, len(h0i)))
         bad, total = None, 0
-        for n in L1CTL_N + (0,):
-            bm = _l1ctl_run(tu, fd, rec, message(n))
+        # a band_arfcn with the PCS 1900 flag names another channel than the same number without it: a hopping and a
+        # non-hopping witness in that band too
+        for n, a0 in [(n, L1CTL_ARFCN0) for n in L1CTL_N + (0,)] + [(2, L1CTL_ARFCN_PCS), (0, L1CTL_ARFCN_PCS)]:
+            arf = lambda i, a0=a0: a0 + i
+            bm = _l1ctl_run(tu, fd, rec, message(n, arfcn0=a0))
             bases = bm.member_bases.get(id(rec), set())
             if len(bases) != 1:
                 raise AnalysisError("%s(): %d objects of the channel description's type are accessed; unclassifiable" % (fname, len(bases)))
@@ -4750,8 +4754,8 @@ def _l1ctl_handler(L, tu, file, fd, rec, flat, groups, flag):
             total += 1
             diffs = []
             lo = flat[gdesc][0]
-            label = "hopping, %d channel%s (ARFCN %d%s)" % (n, "" if n == 1 else "s", arf(0), "..%d" % arf(n - 1) if n > 1 else "") \
-                if n else "non-hopping (ARFCN %d)" % arf(0)
+            label = "hopping, %d channel%s (%s%s)" % (n, "" if n == 1 else "s", _arfcn_txt(arf(0)), ".." + _arfcn_txt(arf(n - 1)) if n > 1 else "") \
+                if n else "non-hopping (%s)" % _arfcn_txt(arf(0))
             if bool(rd(flat[gflag][0], flat[gflag][1][1])) != bool(n):
                 diffs.append("`%s` is %d" % (gflag, rd(flat[gflag][0], flat[gflag][1][1])))
             elif n:
@@ -4779,7 +4783,8 @@ def _l1ctl_handler(L, tu, file, fd, rec, flat, groups, flag):
              "%s() installs the %s channel description from an L1CTL message (network byte order): the flag, hsn, maio, n and every "
              "ma[i], i < n (non-hopping: the ARFCN) are stored as host integers equal to what the message carries" % (fname, what),
              "`%s` as a truth value, `%s`.hsn / maio / n / ma[0..n-1], `%s` equal to the message's values" % (gflag, gdesc, gh0),
-             "folded for %d witness messages (hopping N = %s; non-hopping): all as required" % (total, ", ".join(map(str, L1CTL_N)))
+             "folded for %d witness messages (hopping N = %s; non-hopping; DCS 1800 and PCS 1900 ARFCNs): all as required" % (
+                 total, ", ".join(map(str, L1CTL_N)))
              if bad is None else bad + " -- rfch_get_params() returns ARFCNs that are not in the configured mobile allocation",
              bad is None, line)
 
@@ -4920,11 +4925,26 @@ def r15_installed_description(L, spec, tier):
     size = hb.sizeof(("rec", hrec))[0]
 
     def observe(state, fn):
+        """the ARFCN rfch_get_params() stores for frame `fn`.  A constant table read beyond its extent yields an
+        indeterminate value: folded with 0 and with 255 there; a result that depends on it is reported as such (it is
+        never MA[MAI]), one that does not (N = 1) counts like any other."""
+        oob = []
+        a = observe1(state, fn, 0, oob)
+        if not oob:
+            return a
+        b = observe1(state, fn, 255, oob)
+        if a == b:
+            return a
+        return "%s (the values there being 0 / 255: %s / %s)" % (oob[0], _r15_got(a, 0), _r15_got(b, 0))
+
+    def observe1(state, fn, fill, oob):
         tm = {"fn": fn, "t1": fn // 1326, "t2": fn % 26, "t3": fn % 51, "tc": (fn // 51) % 8}
         tb = {}
         for k, (o, d) in tf.items():
-            if d is None or d[0] != "int" or k not in tm:
-                raise AnalysisError("struct gsm_time member `%s` is not one of fn / t1 / t2 / t3 / tc; unclassifiable" % k)
+            if k not in tm:
+                continue                # a member TS 45.002 does not define: undefined bytes (a read of them ends the fold)
+            if d is None or d[0] != "int":
+                raise AnalysisError("struct gsm_time member `%s` is not an integer; unclassifiable" % k)
             for j in range(d[1]):
                 tb[o + j] = (tm[k] >> (8 * j)) & 0xFF
         bm = _ByteMachine(head)
@@ -4938,6 +4958,11 @@ def r15_installed_description(L, spec, tier):
             if region == "<arfcn>":
                 return 0
             v = _const_table_byte(head, bm, region, off)
+            if v is None and region in head.vars and region not in rec_regions(bm) and _const_table_byte(head, bm, region, 0) is not None:
+                # a table the file defines and only reads, addressed outside its extent
+                oob.append("reads `%s` at byte offset %d, beyond its extent of %s bytes" % (
+                    region, off, bm.sizeof(bm.tdesc(head.vars[region].get("type")))[0]))
+                return fill
             if v is None and region in head.vars and region not in rec_regions(bm):
                 # an object of static storage the file writes (a remembered result): first call after start-up, so it holds
                 # its initialiser -- zero without one
@@ -4980,6 +5005,16 @@ class _ObservationSkipped(Exception):
     pass
 
 
+R15_T1 = (0, 63, 64, 255, 256, 1000, 2047)      # T1R = T1 mod 64: around 64, around the width of an octet, the last superframe
+R15_T1_FRAMES = (7, 1325)                       # frames of the superframe (T2, T3) = (7, 7), (25, 50)
+
+
+def _r15_got(got, n):
+    if not isinstance(got, int):
+        return got
+    return "returns %d%s" % (got, " = MA[%d]" % (got - L1CTL_ARFCN0) if 0 <= got - L1CTL_ARFCN0 < n else "")
+
+
 def _r15_paths(L, rule, hl, hp, tk, flag, live, size, hb, hflat, observe, members, extern, rntable):
     hsn, maio = L1CTL_HSN, L1CTL_MAIO
     total = 0
@@ -4999,14 +5034,33 @@ def _r15_paths(L, rule, hl, hp, tk, flag, live, size, hb, hflat, observe, member
                 mai, s, _ = ref_select(rntable, hsn, maio, n, fn)
                 k += 1
                 if got != L1CTL_ARFCN0 + mai and bad is None:
-                    bad = "N = %d (ARFCN %d..%d), HSN = %d, MAIO = %d: rfch_get_params(FN = %d) returns %d%s, TS 45.002 6.2.3 selects " \
-                        "MA[%d] = %d (S = %d)" % (n, L1CTL_ARFCN0, L1CTL_ARFCN0 + n - 1, hsn, maio, fn, got,
-                                                  " = MA[%d]" % (got - L1CTL_ARFCN0) if 0 <= got - L1CTL_ARFCN0 < n else "", mai, L1CTL_ARFCN0 + mai, s)
+                    bad = "N = %d (ARFCN %d..%d), HSN = %d, MAIO = %d: rfch_get_params(FN = %d) %s, TS 45.002 6.2.3 selects " \
+                        "MA[%d] = %d (S = %d)" % (n, L1CTL_ARFCN0, L1CTL_ARFCN0 + n - 1, hsn, maio, fn, _r15_got(got, n), mai, L1CTL_ARFCN0 + mai, s)
         total += k
         L.ob(rule, fileA, nameA, "%s() installs a hopping channel description (zeroed static storage before): rfch_get_params() then "
              "returns MA[MAI] of TS 45.002 6.2.3 for the configured HSN, MAIO, mobile allocation (handler and rfch_get_params() "
              "folded on the byte machine)" % nameA, "MA[MAI] for each of %d witnesses (N, FN)" % k,
              "MA[MAI] for each of %d witnesses (N, FN)" % k if bad is None else bad, bad is None, tuA.line(fdA))
+        if fdA is hl[0][2]:
+            # T1R = T1 mod 64 end to end (caller, argument passing with the declared widths, generator): frames of the
+            # superframes T1 = 0, 63, 64, 255, 256, 1000, 2047 on the description the first handler installed
+            bad, k = None, 0
+            for n in R15_N:
+                for fn in [t1 * 1326 + r for t1 in R15_T1 for r in R15_T1_FRAMES]:
+                    got = observe(direct[n], fn)
+                    mai, s, _ = ref_select(rntable, hsn, maio, n, fn)
+                    k += 1
+                    if got != L1CTL_ARFCN0 + mai and bad is None:
+                        bad = "N = %d (ARFCN %d..%d), HSN = %d, MAIO = %d: rfch_get_params(FN = %d: T1 = %d, T2 = %d, T3 = %d) %s, TS 45.002 " \
+                            "6.2.3 selects MA[%d] = %d (T1R = %d, S = %d)" % (n, L1CTL_ARFCN0, L1CTL_ARFCN0 + n - 1, hsn, maio, fn, fn // 1326,
+                                                                        fn % 26, fn % 51, _r15_got(got, n), mai, L1CTL_ARFCN0 + mai,
+                                                                        (fn // 1326) % 64, s)
+            total += k
+            L.ob(rule, F_RFCH, "rfch_get_params", "rfch_get_params() returns MA[MAI] of TS 45.002 6.2.3 (T1R = T1 mod 64) in the superframes "
+                 "T1 = %s (description installed by %s(); caller, argument conversions and generator folded end to end on the byte "
+                 "machine; a table read beyond its extent is an indeterminate value)" % (", ".join(map(str, R15_T1)), nameA),
+                 "MA[MAI] for each of %d witnesses (N, FN)" % k, "MA[MAI] for each of %d witnesses (N, FN)" % k if bad is None else bad,
+                 bad is None, hb.tu.line(hb.tu.func("rfch_get_params")))
         for (tuB, fileB, fdB, recB, flatB, _w2) in hp:
             nameB = fdB.get("name")
             _pB, msgB = _l1ctl_witness(tuB, fdB, recB, flag)
@@ -5042,11 +5096,10 @@ def _r15_paths(L, rule, hl, hp, tk, flag, live, size, hb, hflat, observe, member
                                     val = lambda bs: sum(x << (8 * i) for i, x in enumerate(bs)) if all(isinstance(x, int) for x in bs) else None
                                     diff.append("`%s.%s` is %s, %s() leaves %s" % (live, m, val(b), nameA, val(a)) if d[0] == "int"
                                                 else "`%s.%s[]` differs" % (live, m))
-                            bad = "%sN = %d (ARFCN %d..), HSN = %d, MAIO = %d: rfch_get_params(FN = %d) returns %d%s, TS 45.002 6.2.3 " \
+                            bad = "%sN = %d (ARFCN %d..), HSN = %d, MAIO = %d: rfch_get_params(FN = %d) %s, TS 45.002 6.2.3 " \
                                 "selects MA[%d] = %d (S = %d); previous channel N = %d" % (
                                     "%s for the same parameters; " % "; ".join(diff[:3]) if diff else "",
-                                    n, L1CTL_ARFCN0, hsn, maio, fn, got,
-                                    " = MA[%d]" % (got - L1CTL_ARFCN0) if 0 <= got - L1CTL_ARFCN0 < n else "", mai, L1CTL_ARFCN0 + mai, s, pn)
+                                    n, L1CTL_ARFCN0, hsn, maio, fn, _r15_got(got, n), mai, L1CTL_ARFCN0 + mai, s, pn)
                 total += k
                 L.ob(rule, fileB, nameB, "%s() -> %s() -> %s() install a hopping channel description (frequency redefinition of an "
                      "established hopping channel): rfch_get_params() then returns MA[MAI] of TS 45.002 6.2.3 for the HSN, MAIO, "
@@ -5141,12 +5194,44 @@ def witness_fns(rntable, hsn, n, full):
     return sorted(set(out + [FN_T1_64, FN_LAST]))
 
 
-def warm_sequence(fns):
+ALIAS_KEYS = (("(HSN xor T1R) + T3 and T2", lambda x, t1r, t2, t3, mp: (x, t2)), ("T2 and T3", lambda x, t1r, t2, t3, mp: (t2, t3)),
+              ("T1R and T3", lambda x, t1r, t2, t3, mp: (t1r, t3)), ("T1R and T2", lambda x, t1r, t2, t3, mp: (t1r, t2)),
+              ("(HSN xor T1R) + T3", lambda x, t1r, t2, t3, mp: (x,)), ("M'", lambda x, t1r, t2, t3, mp: (mp,)),
+              ("T3", lambda x, t1r, t2, t3, mp: (t3,)), ("T2", lambda x, t1r, t2, t3, mp: (t2,)), ("T1R", lambda x, t1r, t2, t3, mp: (t1r,)))
+ALIAS_SUPERFRAMES = 4               # T1R 0..3: frames of different superframes meet in (HSN xor T1R) + T3
+_ALIAS = {}
+
+
+def alias_pairs(rntable, hsn, n):
+    """pairs of frames (A, B) of pseudo-random hopping that agree in a proper part of what S depends on
+    ((HSN xor T1R) + T3, T2, T3, T1R, M') but have different S: whatever an object remembers from resolve(A) under a key
+    that is coarser than the dependence of the value is wrong for B.  One pair per part (the first in frame order)."""
+    k = (id(rntable), hsn, n)
+    if k not in _ALIAS:
+        p = nbin_mask(n) + 1
+        first, out = [{} for _ in ALIAS_KEYS], {}
+        for fn in range(ALIAS_SUPERFRAMES * 1326):
+            t1r, t2, t3 = (fn // 1326) % 64, fn % 26, fn % 51
+            x = (hsn ^ t1r) + t3
+            mp = (t2 + rntable[x]) % p
+            sv = mp if mp < n else (mp + t3 % p) % n
+            for i, (name, key) in enumerate(ALIAS_KEYS):
+                if name not in out:
+                    a = first[i].setdefault(key(x, t1r, t2, t3, mp), (fn, sv))
+                    if a[1] != sv:
+                        out[name] = (a[0], fn)
+        _ALIAS[k] = [out[name] for name, _ in ALIAS_KEYS if name in out]
+    return _ALIAS[k]
+
+
+def warm_sequence(fns, pairs=()):
     """frames resolved one after the other on one object: the first two and the last two witnesses, each pair as
-    a, a, b, a (a repeated frame, another frame, the first one again)"""
+    a, a, b, a (a repeated frame, another frame, the first one again); then the aliasing pairs a, b"""
     seq = []
     for a, b in ((fns[0], fns[1 % len(fns)]), (fns[-1], fns[0])):
         seq += [a, a, b, a]
+    for a, b in pairs:
+        seq += [a, b]
     return seq
 
 
@@ -5204,7 +5289,14 @@ def r7_witnesses(L, repo, spec):
     stateful = []
 
     def select(obj, fn, carry=False):
-        ev = ObjEv(repo, mod, env=dict(obj, **{rps[1]: fn}), self_cls=ci)
+        # the call works on a private copy of the object's state: a container updated in place (a memo dict) neither
+        # leaks into the next "fresh object" witness nor hides that resolve() keeps state
+        try:
+            work = copy.deepcopy({k: v for k, v in obj.items() if consts.get(k) is not v})
+            work.update({k: v for k, v in obj.items() if k not in work})
+        except Exception as e:
+            raise Skip("HoppingParams object state cannot be copied: %s" % e)
+        ev = ObjEv(repo, mod, env=dict(work, **{rps[1]: fn}), self_cls=ci)
         try:
             r = ev.run_block(resolve.body)
             after = {k: v for k, v in ev.env.items() if isinstance(k, str) and k.startswith("self.")}
@@ -5248,7 +5340,7 @@ def r7_witnesses(L, repo, spec):
                             # the object keeps state between calls: the same frames resolved one after the other on ONE object
                             # (a frame repeated, another frame, the first one again), the state carried from call to call
                             live, prev = dict(obj), None
-                            for fn in warm_sequence(fns):
+                            for fn in warm_sequence(fns, alias_pairs(rntable, hsn, n) if hsn else ()):
                                 got = select(live, fn, carry=True)
                                 mai, s, _ = ref_select(rntable, hsn, maio, n, fn)
                                 wk += 1
